@@ -197,7 +197,7 @@ func (ex *Exec) loopHead(fr *Frame, b *ssa.BasicBlock, ord int, pred *ssa.BasicB
 		mods := ex.resolveModifies(tc, menv)
 		if !mods.all {
 			for _, h := range sortedKeys(ws.heaps) {
-				if mods.heaps[h] || !(strings.HasPrefix(h, "H_") || strings.HasPrefix(h, "HP_")) {
+				if mods.heaps[h] || !(strings.HasPrefix(h, "H_") || strings.HasPrefix(h, "HP_") || strings.HasPrefix(h, "MD_") || strings.HasPrefix(h, "MV_")) {
 					continue
 				}
 				cur := vc.heapGetByName(st, h)
